@@ -51,6 +51,33 @@ def witnesses(specdir, scr):
     return res
 
 
+INDUCTIVE = ["EstablishedByCreate", "PreservedByClaim", "PreservedByTopUp", "PreservedByRate", "PreservedByCancel", "PreservedByTime",
+             "ConservedByClaim", "ConservedByCancel", "ClaimBeforeZeroTimeLeavesDeposit"]
+VACUITY = ["Vacuity_TopUpWithoutInvariant", "Vacuity_ClaimPaysNothing"]
+
+
+def inductive(specdir, scr):
+    """Apalache, unbounded integers: the invariant IndInv (Sustained + well-formedness) of mc/ArithInductive.tla is
+    established by create and preserved by every operation and by the passing of time; each release conserves coins.
+    The two vacuity probes must be violated."""
+    jobs = []
+    for q in INDUCTIVE + VACUITY:
+        out = scr.sub("ind-" + q)
+        cmd = ["timeout", "600", "apalache-mc", "check", "--length=0", "--inv=" + q, "--out-dir=" + out, "ArithInductive.tla"]
+        jobs.append((q, out, subprocess.Popen(cmd, cwd=specdir, stdout=subprocess.PIPE, stderr=subprocess.STDOUT, text=True)))
+    res = {}
+    for q, out, p in jobs:
+        o, _ = p.communicate()
+        shutil.rmtree(out, ignore_errors=True)
+        proved, refuted = "EXITCODE: OK" in o, "EXITCODE: ERROR (12)" in o
+        if not (proved or refuted):
+            raise Inconclusive("apalache failed on ArithInductive %s:\n%s" % (q, o[-3000:]))
+        if (q in INDUCTIVE and not proved) or (q in VACUITY and not refuted):
+            raise Inconclusive("ArithInductive: %s %s (model error in StreamArith.tla, not a verdict on the code)" % (q, "has a counterexample" if q in INDUCTIVE else "is not violated: vacuous check"))
+        res[q] = "proved for all integers" if proved else "violated as required (the check is not vacuous)"
+    return res
+
+
 NS = 1000000000
 
 
@@ -147,6 +174,7 @@ def run(pid, tier, scr, hbin, specdir, cov, scenarios=None):
     rng = random.Random(vlib.seed())
     info = dict()
     if scenarios is None:
+        info["apalache_inductive"] = inductive(specdir, scr)
         ws = witnesses(specdir, scr)
         info["apalache_queries"] = [dict(query=w["query"], domain=w["domain"], outcome="agree (no witness)" if w["agree"] else "witness", witness=w.get("w")) for w in ws]
         scenarios = [scenario_of_witness(i, w) for i, w in enumerate(ws) if not w["agree"]]
